@@ -9,6 +9,8 @@ use rayon::{prelude::*, ThreadPool};
 
 use crate::par_sort::par_quicksort;
 use crate::pattern::{self, MultiPattern};
+#[cfg(feature = "verif-hooks")]
+use crate::verif::{point, site};
 use crate::{boxcar, Match};
 
 struct Matchers(Box<[UnsafeCell<nucleo_matcher::Matcher>]>);
@@ -100,6 +102,8 @@ impl<T: Sync + Send + 'static> Worker<T> {
             let in_flight = Mutex::new(&mut self.in_flight);
             let items = new_snapshot.map(|(idx, item)| {
                 let Some(item) = item else {
+                    #[cfg(feature = "verif-hooks")]
+                    point(site::INFLIGHT_PUSH, idx as u64);
                     in_flight.lock().push(idx);
                     unmatched.fetch_add(1, atomic::Ordering::Relaxed);
                     return Match {
@@ -107,6 +111,8 @@ impl<T: Sync + Send + 'static> Worker<T> {
                         idx: u32::MAX,
                     };
                 };
+                #[cfg(feature = "verif-hooks")]
+                point(site::RUN_SCORE_ITEM, idx as u64);
                 if self.canceled.load(atomic::Ordering::Relaxed) {
                     return Match { score: 0, idx };
                 }
@@ -153,6 +159,8 @@ impl<T: Sync + Send + 'static> Worker<T> {
     }
 
     pub(crate) unsafe fn run(&mut self, pattern_status: pattern::Status, cleared: bool) {
+        #[cfg(feature = "verif-hooks")]
+        point(site::RUN_START, cleared as u64);
         self.running = true;
         self.was_canceled = false;
 
@@ -161,14 +169,24 @@ impl<T: Sync + Send + 'static> Worker<T> {
             self.in_flight.clear();
             self.matches.clear();
         }
+        #[cfg(feature = "verif-hooks")]
+        point(site::RUN_AFTER_RESET, 0);
 
         // TODO: be smarter around reusing past results for rescoring
         if self.pattern.is_empty() {
             self.reset_matches();
             self.process_new_items_trivial();
+            #[cfg(feature = "verif-hooks")]
+            point(site::RUN_AFTER_SORT, 0);
+            #[cfg(feature = "verif-hooks")]
+            point(site::RUN_BEFORE_NOTIFY_READ, 0);
             if self.should_notify.load(atomic::Ordering::Relaxed) {
                 (self.notify)();
             }
+            #[cfg(feature = "verif-hooks")]
+            point(site::RUN_AFTER_NOTIFY, 0);
+            #[cfg(feature = "verif-hooks")]
+            point(site::RUN_END, 0);
             return;
         }
 
@@ -204,6 +222,8 @@ impl<T: Sync + Send + 'static> Worker<T> {
             self.process_new_items(&unmatched);
         }
 
+        #[cfg(feature = "verif-hooks")]
+        point(site::RUN_AFTER_SCAN, self.matches.len() as u64);
         let canceled = par_quicksort(
             &mut self.matches,
             |match1, match2| {
@@ -240,15 +260,23 @@ impl<T: Sync + Send + 'static> Worker<T> {
             &self.canceled,
         );
 
+        #[cfg(feature = "verif-hooks")]
+        point(site::RUN_AFTER_SORT, canceled as u64);
         if canceled {
             self.was_canceled = true;
         } else {
             self.matches
                 .truncate(self.matches.len() - take(unmatched.get_mut()) as usize);
+            #[cfg(feature = "verif-hooks")]
+            point(site::RUN_BEFORE_NOTIFY_READ, 0);
             if self.should_notify.load(atomic::Ordering::Relaxed) {
                 (self.notify)();
             }
+            #[cfg(feature = "verif-hooks")]
+            point(site::RUN_AFTER_NOTIFY, 0);
         }
+        #[cfg(feature = "verif-hooks")]
+        point(site::RUN_END, canceled as u64);
     }
 
     fn reset_matches(&mut self) {
